@@ -50,7 +50,7 @@ def _classify_load(m):
     old = os.environ.get('VERIF_EXCLUDE', '')
     os.environ['VERIF_EXCLUDE'] = 'setframeset_implied_x_after_record_boundary'
     try:
-        ok = H._load(fpr, m['indirect'], m['tif'], m['start'], m['stop'], m['step'], m['m1'], m['m2'], m['second'])
+        ok = H._load(fpr, m['indirect'], m['tif'], m['start'], m['stop'], m['step'], m['m1'], m['m2'], m['second'], m.get('var', 0))
     except Exception:
         ok = False
     finally:
@@ -64,13 +64,13 @@ def obligations(tier):
            'LIS.core.FrameSet.FrameSet (real numpy/Cython storage, concrete per path)', 'LogiRec.LrDFSRRead/EntryBlockSet.readFromFile/DatumSpecBlockRead', 'File.FileRead', 'PhysRec.PhysRecRead']
     return [
         Ob('index_structure_end_to_end', 'ch', 'reference-encoded LIS file: header, optional table, DFSR, 1..3 data records of 1..3 frames, trailer; indirect X on/off, TIF on/off, '
-           'records split over physical records or not',
+           'records split over physical records or not; up/down log, frame spacing in X units or in FEET (5 FEET = 600 .1IN)',
            e2e, harness='C06_logpass', func='index_structure', timeout=280 if q else 1200, parts=16, stubs=['SymFile', 'PyStruct']),
         Ob('load_slices_end_to_end_quick', 'ch', 'file with 3 data records of 2, 2..3, 1 frames; every slice (step 1..3), every non-empty subset of the two value channels, indirect X on/off, '
-           'TIF on/off, with/without an earlier load; values, X and byte ranges read',
+           'TIF on/off, with/without an earlier load, up/down log, frame spacing declared in X units or (indirect X) in FEET; values, X and byte ranges read',
            e2e, harness='C06_logpass', func='load_slices_q', timeout=280, parts=32, stubs=['SymFile', 'PyStruct'], classify=_classify_load, tiers=('quick',)),
         Ob('load_slices_end_to_end', 'ch', 'file with 3 data records of 1..2, 2..3, 1..2 frames; every slice (step 1..3), every non-empty subset of the two value channels, indirect X on/off, '
-           'TIF on/off, with/without an earlier load',
+           'TIF on/off, with/without an earlier load, up/down log, frame spacing declared in X units or in FEET',
            e2e, harness='C06_logpass', func='load_slices', timeout=2400, parts=32, stubs=['SymFile', 'PyStruct'], classify=_classify_load, tiers=('thorough',)),
         Ob('plan_events_vs_cursor', 'ch', '1..3 channels of 1..3 bytes, indirect X on/off, slice start 0..3 / stop <= 4 / step 1..3, every non-empty channel mask',
            ['LIS.core.Type01Plan.FrameSetPlan.__init__/genEvents/_retFrameEvents/_retMergedPostFramePre/chOffset'], harness='C06_logpass', func='plan_events',
